@@ -189,7 +189,24 @@ def signal_closed(ck):
         if it and v and any(p == v for _n, _c, p, _k in ss):
             settled_lists.add(it)
             loopvars[it] = v
-    directly = {p for _n, _c, p, _k in ss if p.startswith("self.")}
+    # plain local aliases: `b = a` makes a and b the same list; `f = self.x` makes f the field's future
+    changed = True
+    while changed:
+        changed = False
+        for st_ in q.walk_body(fi.node):
+            if isinstance(st_, (ast.Assign, ast.AnnAssign)) and isinstance(getattr(st_, "value", None), ast.Name):
+                tg = st_.targets if isinstance(st_, ast.Assign) else [st_.target]
+                if len(tg) == 1 and isinstance(tg[0], ast.Name):
+                    a_, b_ = tg[0].id, st_.value.id
+                    if (a_ in settled_lists) != (b_ in settled_lists):
+                        settled_lists |= {a_, b_}
+                        changed = True
+    field_alias: Dict[str, str] = {}
+    for st_ in q.walk_body(fi.node):
+        if isinstance(st_, ast.Assign) and len(st_.targets) == 1 and isinstance(st_.targets[0], ast.Name) and q.dotted(st_.value) in fields:
+            if len(q.stores_to(fi.node, st_.targets[0].id)) == 1:
+                field_alias[st_.targets[0].id] = q.dotted(st_.value)
+    directly = {p for _n, _c, p, _k in ss if p.startswith("self.")} | {field_alias[p] for _n, _c, p, _k in ss if p in field_alias}
     for path, kind in sorted(fields.items()):
         # collected into a settled list, or settled directly
         collected = False
@@ -603,6 +620,9 @@ def run(ck):
     ck.rule("C13.closed-checks", "_check_closed raises StreamClosedError(real_error) iff closed; write() checks it before queuing; _add_io_state registers nothing once closed")
     ck.rule("C13.inline-read-check", "_try_inline_read tries the buffer first, then checks closed before touching the fd; _start_read checks closed before asserting and registers a fresh future")
     ck.rule("C13.read-end-mode", "every function that ends a read (self._read_future = None) leaves caller-buffer mode (_user_read_buffer False) on every path")
+    from ..x_iostream import normalised
+
+    normalised(ck)
     signal_closed(ck)
     close_path(ck)
     closed_checks(ck)
